@@ -1,4 +1,4 @@
-(* C07 — SSM serial optimiser returns minimising levels and their true expected cost.   LEVEL: PARTIAL (vector optimality).
+(* C07 — SSM serial optimiser returns minimising levels and their true expected cost.
    Statements only; every proof is [exact <lemma of Alg/SSM_proofs.v>].
    Model: Alg/SSM.v ([ssm] = the stage loop of stockpyl.ssm_serial.optimize_base_stock_levels on an integer-spaced
    grid, stages in the code's internal order 1 = downstream .. N = upstream; [ssm_params] adds the node re-indexing
@@ -9,8 +9,12 @@
    Also PROVED (Alg/SSMCost_proofs.v): the cost reported for given levels equals the exact expected holding + stockout cost of
    operating them (Clark-Scarf decomposition against the independent top-down enumeration, C07_ssm_cost_is_long_run_cost)
    and the Shang-Song newsvendor fractiles bracket every S*_j (C07_shang_song_bounds).
-   NOT PROVED (checked by the Python oracle only — search, not proof): optimality of the level VECTOR over all vectors. *)
-From SV Require Import Base.Qx Alg.SSM Alg.SSM_proofs Alg.SSMCost_proofs.
+   and (Alg/SSMOpt_proofs.v) the returned VECTOR minimises the exact expected cost over all level vectors on the grid, the reported
+   optimal cost being the cost of that vector (C07_vector_optimal), whenever p + (trailing sums of h) >= 0 — in particular for
+   p >= 0 and h_j >= 0; the condition cannot be dropped (C07_vector_optimal_needs_hyp).
+   Scope of all of these: exactly represented finite-support demand on an integer grid (exact_instance); normal demand
+   (continuous grids) is oracle-only. *)
+From SV Require Import Base.Qx Alg.SSM Alg.SSM_proofs Alg.SSMCost_proofs Alg.SSMOpt_proofs.
 Require Import Coq.Sorting.Permutation.
 
 Section C07.
@@ -111,6 +115,29 @@ Theorem C07_shang_song_bounds :
       (yl <= nth j (ssm_levels xlo xnum xext p mu stages) 0 <= yu)%Z.
 Proof. exact shang_song_bounds. Qed.
 
+(* the vector returned by the optimiser is optimal among ALL level vectors on the grid, and the reported cost is its exact expected cost
+   ([tail_cond p stages]: p + h_j + ... + h_N >= 0 for every j; implied by p >= 0 and h >= 0) *)
+Theorem C07_vector_optimal :
+  forall xlo xnum xext p mu stages,
+    exact_instance xlo xext mu stages -> optimising stages -> tail_cond p stages ->
+    let Hall := qsum (map sg_h stages) in
+    let lvs := ssm_levels xlo xnum xext p mu stages in
+    (length lvs = length stages /\ Forall (fun l => (xlo <= l <= xhi xlo xnum)%Z) lvs) /\
+    ssm_cost xlo xnum xext p mu stages == topdown p Hall (rev (combine stages lvs)) None /\
+    forall lv, length lv = length stages -> Forall (fun l => (xlo <= l <= xhi xlo xnum)%Z) lv ->
+      ssm_cost xlo xnum xext p mu stages <= topdown p Hall (rev (combine stages lv)) None /\
+      ssm_cost xlo xnum xext p mu stages <= ssm_cost xlo xnum xext p mu (with_levels stages lv).
+Proof. exact ssm_optimal. Qed.
+Theorem C07_vector_optimal_nonneg_costs : forall p stages, 0 <= p -> Forall (fun sg => 0 <= sg_h sg) stages -> tail_cond p stages.
+Proof. exact tail_cond_nonneg. Qed.
+Theorem C07_vector_optimal_needs_hyp :
+  exists xlo xnum xext p mu stages,
+    exact_instance xlo xext mu stages /\ optimising stages /\ 0 < p /\ 0 <= p + qsum (map sg_h stages) /\
+    ~ (forall lv, length lv = length stages -> Forall (fun l => (xlo <= l <= xhi xlo xnum)%Z) lv ->
+         topdown p (qsum (map sg_h stages)) (rev (combine stages (ssm_levels xlo xnum xext p mu stages))) None <=
+         topdown p (qsum (map sg_h stages)) (rev (combine stages lv)) None).
+Proof. exact ssm_levels_optimal_needs_hyp. Qed.
+
 (* non-vacuity: Example-6.1-like 3-stage instance, demand uniform on {0,1,2,3}, L = (1,1,2), h = (3,2,2), p = 20;
    the hypotheses of the statements hold, the optimiser returns (3,5,8) with cost 3183/128, a neighbouring vector is
    strictly worse, and on this instance the reported cost equals the top-down expected cost *)
@@ -139,3 +166,6 @@ Print Assumptions C07_relabel_invariant.
 Print Assumptions C07_list_order_invariant.
 Print Assumptions C07_ssm_cost_is_long_run_cost.
 Print Assumptions C07_shang_song_bounds.
+Print Assumptions C07_vector_optimal.
+Print Assumptions C07_vector_optimal_nonneg_costs.
+Print Assumptions C07_vector_optimal_needs_hyp.
